@@ -415,7 +415,9 @@ def run_sessions(case, ctx: Ctx) -> None:
                 if m["kind"] == "shared":
                     holder, fq = shape_shared, f"{dbname['db1']}.S1.LOOKED_AT"
                 else:
-                    holder, fq = m.setdefault("shape", [None]), f"{m['db']}.{m['schema']}.LOOKED_AT"
+                    holder = m.setdefault("shape", [None])
+                    # (an isolated session's table stays where it was first made, whatever schema the session has moved to since)
+                    fq = m.setdefault("shape_fq", f"{m['db']}.{m['schema']}.LOOKED_AT")
                 if kind == "replace":
                     if not isinstance(op[2], int) or not 0 <= op[2] < len(SHAPES):
                         raise InvalidCase()
